@@ -1,7 +1,7 @@
 (* C16: loading arbitrary bytes never panics, never runs out of fuel, and never allocates an
    area larger than the per-segment limit.  C15 facts about a loaded segment follow below. *)
 From Coq Require Import ZArith Bool List Lia.
-From AxV Require Import Bits Outcome Codes Iced State Rt Mem Trace Elf BitsP ListP ByteStore MemP LayoutP.
+From AxV Require Import Bits Outcome Codes Iced State Rt Mem Trace Elf BitsP ListP ByteStore MemP LayoutP StackInitP.
 Local Open Scope Z_scope.
 Import ListNotations.
 Ltac Zify.zify_post_hook ::= Z.div_mod_to_equations.
@@ -300,4 +300,469 @@ Proof.
   - apply load_segments_total; [rewrite Ed; exact Hd|]. unfold table_iter. apply iter_phdrs_ok. apply Hph; reflexivity.
   - intros _. destruct (symbol_table f) as [[[st sb]|]|]; try apply total_ret. apply load_symbols_total.
   - exact HL.
+Qed.
+
+(* ---- C15: what a loaded segment looks like ---- *)
+Definition free_range (m : list area) (start len : Z) : Prop :=
+  forall a, In a m -> area_blocks a start len = false.
+
+Lemma free_existsb m start len : free_range m start len -> existsb (fun a => area_blocks a start len) m = false.
+Proof.
+  intros H. destruct (existsb _ m) eqn:E; [|reflexivity]. apply existsb_exists in E. destruct E as (a & Hin & Hb).
+  rewrite (H a Hin) in Hb. discriminate.
+Qed.
+
+Lemma byte_at_prot_go start p : forall m m', prot_go start p m = Some m' -> forall x, byte_at m' x = byte_at m x.
+Proof.
+  induction m as [|a m IH]; intros m' H x; cbn [prot_go] in H; [discriminate|].
+  destruct (start =? a_start a).
+  - inversion H; subst. unfold byte_at, owner. cbn [find_area]. unfold area_contains. cbn [a_start a_len set_area_access].
+    destruct (_ && _); reflexivity.
+  - destruct (prot_go start p m) as [r|] eqn:G; [|discriminate]. inversion H; subst.
+    unfold byte_at, owner in *. cbn [find_area]. destruct (area_contains a x); [reflexivity|]. apply IH. reflexivity.
+Qed.
+
+Lemma prot_go_last start p m a :
+  (forall b, In b m -> a_start b <> start) -> a_start a = start ->
+  prot_go start p (m ++ [a]) = Some (m ++ [set_area_access a p]).
+Proof.
+  intros Hn Ha. induction m as [|b m IH]; cbn [app prot_go].
+  - rewrite <- Ha, Z.eqb_refl. reflexivity.
+  - destruct (Z.eqb_spec start (a_start b)) as [E|E]; [exfalso; apply (Hn b (or_introl eq_refl)); congruence|].
+    rewrite IH; [reflexivity|]. intros c Hc. apply Hn. right. exact Hc.
+Qed.
+
+Lemma round_up_value c size : 0 <= size <= MAX_SEGMENT_MEMSZ ->
+  round_up_to_page_size c size = Ok (size + 4095 - (size + 4095) mod 4096).
+Proof.
+  intros Hs. unfold round_up_to_page_size, MAX_SEGMENT_MEMSZ in *. change (2 ^ 28) with 268435456 in *.
+  destruct (Z.gtb_spec size 268435456); [lia|].
+  assert (R : in_range U64 (sem U64 size + sem U64 4095) = true).
+  { unfold in_range, sem, modulus; cbn [signed width]. change (2 ^ 64) with 18446744073709551616.
+    apply andb_true_iff. split; [apply Z.leb_le|apply Z.ltb_lt]; lia. }
+  assert (W : wadd U64 size 4095 = size + 4095).
+  { unfold wadd. apply enc_small. unfold modulus; cbn [width]. change (2 ^ 64) with 18446744073709551616. lia. }
+  unfold add_chk. assert (E : (if ovf c then if in_range U64 (sem U64 size + sem U64 4095) then Ok (wadd U64 size 4095) else Panic PArith
+                               else Ok (wadd U64 size 4095)) = Ok (size + 4095)) by (destruct (ovf c); rewrite ?R, W; reflexivity).
+  rewrite E. f_equal.
+  change (wnot U64 4095) with (Z.ldiff (Z.ones 64) (Z.ones 12)).
+  rewrite land_ldiff_ones by (change (2 ^ 64) with 18446744073709551616; lia).
+  rewrite ldiff_sub. rewrite Z.land_ones by lia. reflexivity.
+Qed.
+
+Lemma flags_prot_le7 f : 0 <= elf_flags_to_prot f <= 7.
+Proof.
+  unfold elf_flags_to_prot, PROT_READ, PROT_WRITE, PROT_EXEC.
+  destruct (Z.land f PF_R =? 0), (Z.land f PF_W =? 0), (Z.land f PF_X =? 0); cbn; lia.
+Qed.
+
+Fixpoint prot_layout (start p : Z) (l : list (Z * Z * Z)) : list (Z * Z * Z) :=
+  match l with
+  | nil => nil
+  | (st, ln, ac) :: r => if start =? st then (st, ln, p) :: r else (st, ln, ac) :: prot_layout start p r
+  end.
+
+Lemma prot_go_layout_spec start p : forall m m', prot_go start p m = Some m' -> layout m' = prot_layout start p (layout m).
+Proof.
+  induction m as [|a m IH]; intros m' H; cbn [prot_go] in H; [discriminate|].
+  cbn [layout map prot_layout shape]. destruct (start =? a_start a).
+  - inversion H; subst. reflexivity.
+  - destruct (prot_go start p m) as [r|] eqn:G; [|discriminate]. inversion H; subst. cbn [layout map shape].
+    f_equal. apply IH. reflexivity.
+Qed.
+
+Lemma prot_go_exists start p : forall m, (exists a, In a m /\ a_start a = start) -> exists m', prot_go start p m = Some m'.
+Proof.
+  induction m as [|a m IH]; intros (b & Hin & Hb); [destruct Hin|]. cbn [prot_go].
+  destruct (Z.eqb_spec start (a_start a)); [eexists; reflexivity|].
+  destruct Hin as [->|Hin]; [congruence|]. destruct (IH (ex_intro _ b (conj Hin Hb))) as [m' E]. rewrite E. eexists; reflexivity.
+Qed.
+
+Lemma prot_layout_last start p l ln ac :
+  (forall t, In t l -> fst (fst t) <> start) ->
+  prot_layout start p (l ++ [(start, ln, ac)]) = l ++ [(start, ln, p)].
+Proof.
+  intros Hn. induction l as [|[[st ln'] ac'] l IH]; cbn [app prot_layout].
+  - rewrite Z.eqb_refl. reflexivity.
+  - destruct (Z.eqb_spec start st) as [E|E]; [exfalso; apply (Hn (st, ln', ac') (or_introl eq_refl)); cbn; congruence|].
+    rewrite IH; [reflexivity|]. intros t Ht. apply Hn. right. exact Ht.
+Qed.
+
+Lemma byte_at_app_outside m a x : area_contains a x = false -> byte_at (m ++ [a]) x = byte_at m x.
+Proof.
+  intros H. unfold byte_at, owner. induction m as [|b m IH]; cbn [app find_area].
+  - rewrite H. reflexivity.
+  - destruct (area_contains b x); [reflexivity|exact IH].
+Qed.
+
+Lemma nth_error_zeros n i : 0 <= i < n -> nth_error (zeros n) (Z.to_nat i) = Some 0.
+Proof.
+  intros H. unfold zeros. rewrite nth_error_repeat; [reflexivity|lia].
+Qed.
+
+Definition rounded_size (msz : Z) : Z := msz + 4095 - (msz + 4095) mod 4096.
+
+Theorem load_pt_load_image c ph content s :
+  Inv (mem s) -> phdr_nonneg ph -> bytes_ok content -> zlen content = p_filesz ph ->
+  p_filesz ph <= p_memsz ph -> 0 < p_memsz ph <= MAX_SEGMENT_MEMSZ ->
+  let rounded := rounded_size (p_memsz ph) in
+  p_vaddr ph + rounded < 2 ^ 64 -> free_range (mem s) (p_vaddr ph) rounded ->
+  exists s', load_pt_load c ph content s = (Ok tt, s') /\ s' = set_mem s (mem s') /\ Inv (mem s') /\
+    layout (mem s') = layout (mem s) ++ [(p_vaddr ph, rounded, elf_flags_to_prot (p_flags ph))] /\
+    (forall i, 0 <= i < p_filesz ph -> byte_at (mem s') (p_vaddr ph + i) = nth_error content (Z.to_nat i)) /\
+    (forall i, p_filesz ph <= i < rounded -> byte_at (mem s') (p_vaddr ph + i) = Some 0) /\
+    (forall x, ~ (p_vaddr ph <= x < p_vaddr ph + rounded) -> byte_at (mem s') x = byte_at (mem s) x).
+Proof.
+  intros HI (Ht & Ho & Hv & Hf & Hm & Hfl) Hc Hz Hfm Hms rounded Hfit Hfree.
+  assert (Hrd : p_memsz ph <= rounded /\ rounded mod 4096 = 0 /\ 0 < rounded) by (unfold rounded, rounded_size; lia).
+  destruct Hrd as (Hr1 & Hr2 & Hr3).
+  unfold load_pt_load. unfold bind at 1. unfold lift. rewrite (round_up_value c (p_memsz ph)) by lia. fold (rounded_size (p_memsz ph)). fold rounded.
+  assert (Hnostart : forall b, In b (mem s) -> a_start b <> p_vaddr ph).
+  { intros b Hb E. specialize (Hfree b Hb). unfold area_blocks in Hfree. rewrite E in Hfree.
+    apply orb_false_iff in Hfree. destruct Hfree as [_ H2]. apply andb_false_iff in H2.
+    destruct H2 as [H2|H2]; [apply Z.leb_gt in H2|apply Z.ltb_ge in H2]; lia. }
+  (* the state after the area exists with the right contents, before mem_prot *)
+  cbv beta. unfold bind at 1.
+  match goal with |- context [let (o, s'0) := ?X s in _] =>
+    assert (Step : exists s2, X s = (Ok tt, s2) /\
+                 s2 = set_mem s (mem s2) /\ Inv (mem s2) /\
+                 layout (mem s2) = layout (mem s) ++ [(p_vaddr ph, rounded, Z.lor PROT_READ PROT_WRITE)] /\
+                 (forall i, 0 <= i < p_filesz ph -> byte_at (mem s2) (p_vaddr ph + i) = nth_error content (Z.to_nat i)) /\
+                 (forall i, p_filesz ph <= i < rounded -> byte_at (mem s2) (p_vaddr ph + i) = Some 0) /\
+                 (forall x, ~ (p_vaddr ph <= x < p_vaddr ph + rounded) -> byte_at (mem s2) x = byte_at (mem s) x)) end.
+  { destruct (Z.eqb_spec rounded (p_filesz ph)) as [Eq|Ne].
+    - (* the file fills the whole rounded area *)
+      pose proof (init_area_spec (p_vaddr ph) content s HI Hv Hc) as Hs.
+      unfold mem_init_area in *. rewrite Hz, <- Eq in *.
+      destruct (Z.geb_spec (p_vaddr ph + rounded) (2 ^ 64)); [lia|].
+      rewrite (free_existsb _ _ _ Hfree) in *. destruct Hs as (_ & _ & Hm2 & Hs2 & HI2).
+      eexists. split; [reflexivity|]. cbn [mem set_mem] in *.
+      split; [destruct s; reflexivity|]. split; [exact HI2|].
+      split; [unfold layout; rewrite map_app; reflexivity|].
+      set (A := {| a_start := p_vaddr ph; a_len := rounded; a_data := content; a_access := Z.lor PROT_READ PROT_WRITE |}) in *.
+      assert (HinA : In A (mem s ++ [A])) by (apply in_or_app; right; left; reflexivity).
+      split; [|split].
+      + intros i Hi. rewrite (byte_at_in _ A _ HI2 HinA) by (cbn; lia). cbn [a_data a_start A]. f_equal. lia.
+      + intros i Hi. lia.
+      + intros x Hx. apply byte_at_app_outside. unfold area_contains. cbn [a_start a_len A].
+        apply andb_false_iff. destruct (Z.leb_spec (p_vaddr ph) x); [right; apply Z.ltb_ge; lia|left; reflexivity].
+    - (* zeroed area, then the file bytes *)
+      unfold bind at 1. unfold mem_init_zero_chk.
+      assert (Hcap : rounded <= alloc_limit).
+      { unfold rounded, rounded_size, alloc_limit, MAX_SEGMENT_MEMSZ in *. change (2 ^ 28) with 268435456 in *. change (2 ^ 40) with 1099511627776. lia. }
+      destruct (Z.gtb_spec rounded alloc_limit); [lia|].
+      destruct (Z.geb_spec (p_vaddr ph + rounded) (2 ^ 64)); [lia|].
+      rewrite (free_existsb _ _ _ Hfree).
+      pose proof (init_area_spec (p_vaddr ph) (zeros rounded) s HI Hv (bytes_ok_zeros rounded)) as Hs.
+      unfold mem_init_area in *. rewrite zlen_zeros in * by lia.
+      destruct (Z.geb_spec (p_vaddr ph + rounded) (2 ^ 64)); [lia|].
+      rewrite (free_existsb _ _ _ Hfree) in *. destruct Hs as (_ & _ & Hm1 & Hs1 & HI1).
+      set (A := {| a_start := p_vaddr ph; a_len := rounded; a_data := zeros rounded; a_access := Z.lor PROT_READ PROT_WRITE |}) in *.
+      set (s1 := set_mem s (mem s ++ [A])) in *. cbn [mem set_mem] in HI1.
+      assert (HinA : In A (mem s1)) by (cbn; apply in_or_app; right; left; reflexivity).
+      unfold bind at 1. destruct (Z.gtb_spec (zlen content) (p_filesz ph)); [lia|]. unfold ret at 1.
+      destruct (Z.leb_spec (p_filesz ph) (zlen content)); [|lia].
+      assert (Efn : firstn (Z.to_nat (p_filesz ph)) content = content).
+      { apply firstn_all2. unfold zlen in Hz. lia. }
+      rewrite Efn.
+      assert (Hacc : accessible (mem s1) (p_vaddr ph) (zlen content) PROT_WRITE).
+      { exists A. split; [apply owner_unique; [exact HI1|exact HinA|apply contains_range; cbn; lia]|].
+        split; [cbn; lia|cbn; discriminate]. }
+      apply (write_ok_iff (p_vaddr ph) content s1 HI1) in Hacc. destruct Hacc as [s2 E2].
+      destruct (write_ok_spec _ _ _ _ HI1 Hc E2) as (Es2 & HL2 & HI2 & HB2).
+      exists s2. split; [exact E2|]. split; [rewrite Es2; unfold s1; destruct s; reflexivity|]. split; [exact HI2|].
+      split; [rewrite HL2; unfold s1; cbn [mem set_mem]; unfold layout; rewrite map_app; reflexivity|].
+      split; [|split].
+      + intros i Hi. rewrite HB2. rewrite Hz.
+        destruct (Z.leb_spec (p_vaddr ph) (p_vaddr ph + i)); [|lia].
+        destruct (Z.ltb_spec (p_vaddr ph + i) (p_vaddr ph + p_filesz ph)); [|lia]. cbn [andb]. f_equal. lia.
+      + intros i Hi. rewrite HB2. rewrite Hz.
+        destruct (Z.ltb_spec (p_vaddr ph + i) (p_vaddr ph + p_filesz ph)); [lia|]. rewrite andb_false_r.
+        rewrite (byte_at_in _ A _ HI1 HinA) by (cbn; lia). cbn [a_data a_start A].
+        replace (p_vaddr ph + i - p_vaddr ph) with i by lia. apply nth_error_zeros. lia.
+      + intros x Hx. rewrite HB2. rewrite Hz.
+        assert (Hout : (p_vaddr ph <=? x) && (x <? p_vaddr ph + p_filesz ph) = false).
+        { apply andb_false_iff. destruct (Z.leb_spec (p_vaddr ph) x); [right; apply Z.ltb_ge; lia|left; reflexivity]. }
+        rewrite Hout. unfold s1. cbn [mem set_mem]. apply byte_at_app_outside. unfold area_contains. cbn [a_start a_len A].
+        apply andb_false_iff. destruct (Z.leb_spec (p_vaddr ph) x); [right; apply Z.ltb_ge; lia|left; reflexivity]. }
+  destruct Step as (s2 & E2 & Es2 & HI2 & HL2 & B1 & B2 & B3).
+  rewrite E2.
+  (* mem_prot *)
+  unfold mem_prot. pose proof (flags_prot_le7 (p_flags ph)) as Hp.
+  destruct (Z.leb_spec (elf_flags_to_prot (p_flags ph)) 7); [|lia]. cbn [negb].
+  assert (Hex : exists a, In a (mem s2) /\ a_start a = p_vaddr ph).
+  { assert (Hin : In (p_vaddr ph, rounded, Z.lor PROT_READ PROT_WRITE) (layout (mem s2))) by (rewrite HL2; apply in_or_app; right; left; reflexivity).
+    unfold layout in Hin. apply in_map_iff in Hin. destruct Hin as (a & Ha & Hin). exists a. split; [exact Hin|]. inversion Ha; reflexivity. }
+  destruct (prot_go_exists (p_vaddr ph) (elf_flags_to_prot (p_flags ph)) (mem s2) Hex) as [m' G]. rewrite G.
+  eexists. split; [reflexivity|]. cbn [mem set_mem].
+  split; [rewrite Es2; destruct s; reflexivity|].
+  split; [eapply inv_same_geometry; [eapply prot_go_layout; exact G|exact HI2]|].
+  split.
+  { rewrite (prot_go_layout_spec _ _ _ _ G), HL2. apply prot_layout_last.
+    intros t Hti. unfold layout in Hti. apply in_map_iff in Hti. destruct Hti as (b & <- & Hb). cbn. apply Hnostart. exact Hb. }
+  split; [intros i Hi; rewrite (byte_at_prot_go _ _ _ _ G); apply B1; exact Hi|].
+  split; [intros i Hi; rewrite (byte_at_prot_go _ _ _ _ G); apply B2; exact Hi|].
+  intros x Hx. rewrite (byte_at_prot_go _ _ _ _ G). apply B3. exact Hx.
+Qed.
+
+(* ---- all segments of a file ---- *)
+Definition is_load (ph : phdr) : bool := negb (p_vaddr ph =? 0) && (p_type ph =? PT_LOAD).
+
+(* headers the loader skips without touching the machine *)
+Definition skippable (f : elf_bytes) (ph : phdr) : Prop :=
+  p_vaddr ph = 0 \/
+  ((exists d, segment_data f ph = Some d) /\
+   (p_type ph = PT_NULL \/ p_type ph = PT_NOTE \/ p_type ph = PT_SHLIB \/ p_type ph = PT_PHDR \/
+    p_type ph = PT_GNU_EH_FRAME \/ p_type ph = PT_GNU_PROPERTY \/ p_type ph = PT_GNU_RELRO \/
+    (p_type ph = PT_GNU_STACK /\ p_flags ph = Z.lor PF_R PF_W))).
+
+Lemma skippable_noop c f ph s : skippable f ph -> load_segment c f ph s = (Ok tt, s).
+Proof.
+  intros [H|[[d Hd] H]]; unfold load_segment, debug_expect_p_type.
+  - rewrite H. reflexivity.
+  - destruct (p_vaddr ph =? 0); [reflexivity|]. rewrite Hd.
+    destruct H as [E|[E|[E|[E|[E|[E|[E|[E E2]]]]]]]]; rewrite E; try reflexivity. cbn. rewrite E2. reflexivity.
+Qed.
+
+(* a well-formed loadable segment, given what is already mapped *)
+Definition load_ok (f : elf_bytes) (ph : phdr) (m : list area) : Prop :=
+  p_vaddr ph <> 0 /\ p_type ph = PT_LOAD /\ phdr_nonneg ph /\
+  (exists d, segment_data f ph = Some d) /\
+  p_filesz ph <= p_memsz ph /\ 0 < p_memsz ph <= MAX_SEGMENT_MEMSZ /\
+  p_vaddr ph + rounded_size (p_memsz ph) < 2 ^ 64 /\
+  free_range m (p_vaddr ph) (rounded_size (p_memsz ph)).
+
+(* the bytes of segment [ph] are in memory [m] *)
+Definition segment_loaded (f : elf_bytes) (ph : phdr) (m : list area) : Prop :=
+  exists d, segment_data f ph = Some d /\
+    In (p_vaddr ph, rounded_size (p_memsz ph), elf_flags_to_prot (p_flags ph)) (layout m) /\
+    (forall i, 0 <= i < p_filesz ph -> byte_at m (p_vaddr ph + i) = nth_error d (Z.to_nat i)) /\
+    (forall i, p_filesz ph <= i < rounded_size (p_memsz ph) -> byte_at m (p_vaddr ph + i) = Some 0).
+
+Lemma load_segment_load c f ph s :
+  Inv (mem s) -> bytes_ok (eb_data f) -> load_ok f ph (mem s) ->
+  exists s', load_segment c f ph s = (Ok tt, s') /\ s' = set_mem s (mem s') /\ Inv (mem s') /\
+    layout (mem s') = layout (mem s) ++ [(p_vaddr ph, rounded_size (p_memsz ph), elf_flags_to_prot (p_flags ph))] /\
+    segment_loaded f ph (mem s') /\
+    (forall x, ~ (p_vaddr ph <= x < p_vaddr ph + rounded_size (p_memsz ph)) -> byte_at (mem s') x = byte_at (mem s) x).
+Proof.
+  intros HI Hd (Hv & Ht & Hn & (d & Ed) & Hfm & Hms & Hfit & Hfree).
+  destruct (segment_data_ok _ _ _ Ed Hd Hn) as [Hc Hz].
+  destruct (load_pt_load_image c ph d s HI Hn Hc Hz Hfm Hms Hfit Hfree) as (s' & E & Es & HI' & HL & B1 & B2 & B3).
+  exists s'. unfold load_segment, debug_expect_p_type.
+  destruct (Z.eqb_spec (p_vaddr ph) 0); [contradiction|]. rewrite Ed. rewrite Ht.
+  repeat match goal with |- context [if ?b then _ else _] => let b' := eval vm_compute in b in change b with b'; cbv iota end.
+  change (bind (ret tt) (fun _ => load_pt_load c ph d) s) with (load_pt_load c ph d s). rewrite E.
+  split; [reflexivity|]. split; [exact Es|]. split; [exact HI'|]. split; [exact HL|].
+  split; [|exact B3].
+  exists d. split; [exact Ed|]. split; [rewrite HL; apply in_or_app; right; left; reflexivity|]. split; assumption.
+Qed.
+
+(* the program-header table, entry by entry: every entry is skippable or a well-formed load
+   with respect to what has been mapped so far *)
+Fixpoint table_ok (f : elf_bytes) (l : list phdr) (m : list area) : Prop :=
+  match l with
+  | nil => True
+  | ph :: r =>
+      (skippable f ph /\ table_ok f r m) \/
+      (load_ok f ph m /\
+       forall m', layout m' = layout m ++ [(p_vaddr ph, rounded_size (p_memsz ph), elf_flags_to_prot (p_flags ph))] ->
+                  table_ok f r m')
+  end.
+
+Lemma load_not_skippable f q : is_load q = true -> ~ skippable f q.
+Proof.
+  unfold is_load. intros Hload Hsk. apply andb_true_iff in Hload. destruct Hload as [H1 H2].
+  apply Z.eqb_eq in H2. destruct Hsk as [H0|[_ Ht]].
+  - rewrite H0 in H1. discriminate.
+  - rewrite H2 in Ht. unfold PT_LOAD, PT_NULL, PT_NOTE, PT_SHLIB, PT_PHDR, PT_GNU_EH_FRAME, PT_GNU_PROPERTY, PT_GNU_RELRO, PT_GNU_STACK in Ht.
+    destruct Ht as [X|[X|[X|[X|[X|[X|[X|[X _]]]]]]]]; discriminate X.
+Qed.
+
+(* a later load never covers an address of an area that is already mapped *)
+Lemma table_ok_disjoint f : forall r m, table_ok f r m ->
+  forall st ln ac, In (st, ln, ac) (layout m) ->
+  forall q, In q r -> is_load q = true ->
+  forall x, st <= x < st + ln -> ~ (p_vaddr q <= x < p_vaddr q + rounded_size (p_memsz q)).
+Proof.
+  induction r as [|ph r IH]; intros m Hok st ln ac Hin q Hq Hload x Hx Hxq; [destruct Hq|].
+  cbn [table_ok] in Hok. destruct Hok as [[Hsk Hr]|[Hl Hr]].
+  - destruct Hq as [<-|Hq]; [exact (load_not_skippable f ph Hload Hsk)|].
+    exact (IH m Hr st ln ac Hin q Hq Hload x Hx Hxq).
+  - destruct Hq as [<-|Hq].
+    + destruct Hl as (_ & _ & _ & _ & _ & _ & _ & Hfree).
+      unfold layout in Hin. apply in_map_iff in Hin. destruct Hin as (a & Ha & Hina).
+      specialize (Hfree a Hina). unfold shape in Ha. inversion Ha; subst. unfold area_blocks in Hfree.
+      apply orb_false_iff in Hfree. destruct Hfree as [F1 F2].
+      apply andb_false_iff in F1. apply andb_false_iff in F2.
+      destruct F1 as [F1|F1]; [apply Z.leb_gt in F1|apply Z.ltb_ge in F1];
+        destruct F2 as [F2|F2]; [apply Z.leb_gt in F2|apply Z.ltb_ge in F2| apply Z.leb_gt in F2|apply Z.ltb_ge in F2]; lia.
+    + set (t := (p_vaddr ph, rounded_size (p_memsz ph), elf_flags_to_prot (p_flags ph))).
+      set (m' := m ++ [{| a_start := p_vaddr ph; a_len := rounded_size (p_memsz ph); a_data := nil; a_access := elf_flags_to_prot (p_flags ph) |}]).
+      assert (HL : layout m' = layout m ++ [t]) by (unfold m', layout; rewrite map_app; reflexivity).
+      apply (IH m' (Hr m' HL) st ln ac (ltac:(rewrite HL; apply in_or_app; left; exact Hin)) q Hq Hload x Hx Hxq).
+Qed.
+
+Theorem load_segments_image c f : forall l s,
+  Inv (mem s) -> bytes_ok (eb_data f) -> table_ok f l (mem s) ->
+  exists s', load_segments c f l s = (Ok tt, s') /\ s' = set_mem s (mem s') /\ Inv (mem s') /\
+    (exists ex, layout (mem s') = layout (mem s) ++ ex) /\
+    (* every loadable segment is in memory: file bytes, zero tail, permissions *)
+    (forall ph, In ph l -> is_load ph = true -> segment_loaded f ph (mem s')) /\
+    (* whatever was mapped before and is not covered by a segment is unchanged *)
+    (forall x, (forall ph, In ph l -> is_load ph = true ->
+                  ~ (p_vaddr ph <= x < p_vaddr ph + rounded_size (p_memsz ph))) ->
+               byte_at (mem s') x = byte_at (mem s) x).
+Proof.
+  induction l as [|ph r IH]; intros s HI Hd Hok; cbn [load_segments].
+  - exists s. split; [reflexivity|]. split; [destruct s; reflexivity|]. split; [exact HI|].
+    split; [exists nil; rewrite app_nil_r; reflexivity|]. split; [intros ph []|reflexivity].
+  - cbn [table_ok] in Hok. destruct Hok as [[Hsk Hr]|[Hl Hr]].
+    + (* skipped entry *)
+      unfold bind. rewrite (skippable_noop c f ph s Hsk).
+      destruct (IH s HI Hd Hr) as (s' & E & Es & HI' & G & A & B).
+      exists s'. split; [exact E|]. split; [exact Es|]. split; [exact HI'|]. split; [exact G|]. split.
+      * intros q [<-|Hq] Hload; [|apply A; assumption].
+        exfalso. exact (load_not_skippable f ph Hload Hsk).
+      * intros x Hx. apply B. intros q Hq. apply Hx. right. exact Hq.
+    + (* a loaded segment *)
+      destruct (load_segment_load c f ph s HI Hd Hl) as (s1 & E1 & Es1 & HI1 & HL1 & Sg & Out).
+      unfold bind. rewrite E1.
+      destruct (IH s1 HI1 Hd (Hr _ HL1)) as (s' & E & Es & HI' & (ex & G) & A & B).
+      exists s'. split; [exact E|]. split; [rewrite Es, Es1; destruct s; reflexivity|]. split; [exact HI'|].
+      split; [eexists; rewrite G, HL1, <- app_assoc; reflexivity|]. split.
+      * intros q [<-|Hq] Hload; [|apply A; assumption].
+        (* the segment loaded first is still intact: later segments lie outside it *)
+        destruct Sg as (d & Ed & Hin & S1 & S2).
+        assert (Hkeep : forall i, 0 <= i < rounded_size (p_memsz ph) -> byte_at (mem s') (p_vaddr ph + i) = byte_at (mem s1) (p_vaddr ph + i)).
+        { intros i Hi. apply B. intros q' Hq' Hl'.
+          apply (table_ok_disjoint f r (mem s1) (Hr _ HL1) _ _ _ Hin q' Hq' Hl'). lia. }
+        assert (Hfm : p_filesz ph <= rounded_size (p_memsz ph)).
+        { destruct Hl as (_ & _ & _ & _ & H1 & H2 & _). unfold rounded_size. lia. }
+        assert (Hf0 : 0 <= p_filesz ph) by (destruct Hl as (_ & _ & (_ & _ & _ & N4 & _) & _); exact N4).
+        exists d. split; [exact Ed|]. split.
+        { rewrite G. apply in_or_app. left. exact Hin. }
+        split; [intros i Hi; rewrite Hkeep by lia; apply S1; exact Hi|intros i Hi; rewrite Hkeep by lia; apply S2; exact Hi].
+      * intros x Hx. rewrite B; [apply Out; apply (Hx ph (or_introl eq_refl))|intros q Hq; apply Hx; right; exact Hq].
+        destruct Hl as (Hv & Ht & _). unfold is_load. apply andb_true_iff. split; [apply negb_true_iff; apply Z.eqb_neq; exact Hv|apply Z.eqb_eq; exact Ht].
+Qed.
+
+(* ---- symbols ---- *)
+Definition sym_lookup (a : Z) (syms : list (Z * list Z)) : option (list Z) :=
+  match find (fun p => fst p =? a) syms with Some p => Some (snd p) | None => None end.
+
+Definition sym_at (strtab : list Z) (a : Z) (sy : symbol) (name : list Z) : Prop :=
+  is_undefined sy = false /\ st_value sy = a /\ strtab_get strtab (st_name sy) = Some name.
+
+Lemma lookup_insert_same k v s : sym_lookup k (symbols (snd (symbols_insert k v s))) = Some v.
+Proof. unfold sym_lookup, symbols_insert. cbn. rewrite Z.eqb_refl. reflexivity. Qed.
+
+Lemma lookup_insert_other k v s a : a <> k -> sym_lookup a (symbols (snd (symbols_insert k v s))) = sym_lookup a (symbols s).
+Proof.
+  intros Hn. unfold sym_lookup, symbols_insert. cbn [snd symbols set_symbols find fst].
+  destruct (Z.eqb_spec k a); [congruence|].
+  induction (symbols s) as [|[k' v'] l IH]; cbn [filter find fst]; [reflexivity|].
+  destruct (Z.eqb_spec k' k) as [E|E]; cbn [negb].
+  - destruct (Z.eqb_spec k' a); [congruence|]. exact IH.
+  - cbn [find fst]. destruct (k' =? a); [reflexivity|exact IH].
+Qed.
+
+Lemma bind_insert {B} k v (f : unit -> MM B) s : bind (symbols_insert k v) f s = f tt (snd (symbols_insert k v s)).
+Proof. reflexivity. Qed.
+
+Lemma load_symbols_frame strtab : forall l s,
+  fst (load_symbols strtab l s) = Ok tt /\ mem (snd (load_symbols strtab l s)) = mem s /\
+  regs (snd (load_symbols strtab l s)) = regs s.
+Proof.
+  induction l as [|sy l IH]; intros s; cbn [load_symbols]; [repeat split|].
+  destruct (is_undefined sy); [apply IH|]. destruct (strtab_get strtab (st_name sy)); [|apply IH].
+  rewrite bind_insert. destruct (IH (snd (symbols_insert (st_value sy) l0 s))) as (A & B & C). split; [exact A|]. split; [rewrite B; reflexivity|rewrite C; reflexivity].
+Qed.
+
+Lemma load_symbols_untouched strtab a : forall l s,
+  (forall sy name, In sy l -> sym_at strtab a sy name -> False) ->
+  sym_lookup a (symbols (snd (load_symbols strtab l s))) = sym_lookup a (symbols s).
+Proof.
+  induction l as [|sy l IH]; intros s Hno; cbn [load_symbols]; [reflexivity|].
+  assert (Hno' : forall sy' name, In sy' l -> sym_at strtab a sy' name -> False) by (intros; eapply Hno; [right|]; eauto).
+  destruct (is_undefined sy) eqn:U; [apply IH; exact Hno'|].
+  destruct (strtab_get strtab (st_name sy)) as [name|] eqn:G; [|apply IH; exact Hno'].
+  rewrite bind_insert. rewrite IH by exact Hno'. apply lookup_insert_other.
+  intros E. apply (Hno sy name (or_introl eq_refl)). repeat split; auto.
+Qed.
+
+(* every address that carries a defined, named symbol resolves to the name of a symbol defined there *)
+Theorem load_symbols_resolve strtab a : forall l s,
+  (exists sy name, In sy l /\ sym_at strtab a sy name) ->
+  exists sy name, In sy l /\ sym_at strtab a sy name /\
+    sym_lookup a (symbols (snd (load_symbols strtab l s))) = Some name.
+Proof.
+  induction l as [|sy l IH]; intros s (sy0 & name0 & Hin & Hat); [destruct Hin|].
+  (* is there a later definition? decide by excluded-middle-free case analysis on the tail via IH *)
+  cbn [load_symbols].
+  assert (Dec : (exists sy' name', In sy' l /\ sym_at strtab a sy' name') \/
+                (forall sy' name', In sy' l -> sym_at strtab a sy' name' -> False)).
+  { clear. induction l as [|x l IHl]; [right; intros ? ? []|].
+    destruct IHl as [(sy' & n' & Hi & Ha)|Hn]; [left; exists sy', n'; split; [right; exact Hi|exact Ha]|].
+    assert (Tail : forall sy' n', In sy' l -> sym_at strtab a sy' n' -> False) by exact Hn.
+    destruct (is_undefined x) eqn:U.
+    { right. intros sy' n' [<-|Hi] Hs; [destruct Hs as (A & _); congruence|exact (Tail sy' n' Hi Hs)]. }
+    destruct (Z.eq_dec (st_value x) a) as [E|E].
+    2:{ right. intros sy' n' [<-|Hi] Hs; [destruct Hs as (_ & B & _); congruence|exact (Tail sy' n' Hi Hs)]. }
+    destruct (strtab_get strtab (st_name x)) as [nm|] eqn:G.
+    - left. exists x, nm. split; [left; reflexivity|]. split; [exact U|]. split; [exact E|exact G].
+    - right. intros sy' n' [<-|Hi] Hs; [destruct Hs as (_ & _ & C); congruence|exact (Tail sy' n' Hi Hs)]. }
+  destruct Dec as [Hlater|Hnone].
+  - (* a later symbol at this address wins *)
+    assert (Go : forall s0, exists sy1 name1, In sy1 (sy :: l) /\ sym_at strtab a sy1 name1 /\
+                   sym_lookup a (symbols (snd (load_symbols strtab l s0))) = Some name1).
+    { intros s0. destruct (IH s0 Hlater) as (sy1 & n1 & Hi1 & Ha1 & L1). exists sy1, n1. split; [right; exact Hi1|split; assumption]. }
+    destruct (is_undefined sy); [apply Go|]. destruct (strtab_get strtab (st_name sy)); [|apply Go].
+    rewrite bind_insert. apply Go.
+  - (* the head is the last definition *)
+    destruct Hin as [<-|Hin]; [|exfalso; eapply Hnone; eauto].
+    destruct Hat as (U & V & G). rewrite U, G. rewrite bind_insert.
+    exists sy, name0. split; [left; reflexivity|]. split; [repeat split; assumption|].
+    rewrite load_symbols_untouched by exact Hnone. rewrite <- V. apply lookup_insert_same.
+Qed.
+
+(* ---- the whole file ---- *)
+Theorem from_binary_image c data f phbuf :
+  bytes_ok data -> minimal_parse data = Some f -> eb_phdrs f = Some phbuf ->
+  let l := table_iter (parse_phdr (eb_little f) (eb_class f)) phbuf in
+  table_ok f l (mem empty_state) ->
+  exists s', from_binary c data empty_state = (Ok tt, s') /\
+    (* the instruction pointer is the entry point *)
+    regs s' RIP = e_entry (eb_ehdr f) /\
+    (* memory: every loadable segment's file bytes at its address, zeros up to the rounded
+       memory size, permissions from the flags; all areas pairwise disjoint *)
+    Inv (mem s') /\
+    (forall ph, In ph l -> is_load ph = true -> segment_loaded f ph (mem s')) /\
+    (* symbols: an address that carries a defined, named symbol resolves to such a name *)
+    (forall st sb a, symbol_table f = Some (Some (st, sb)) ->
+       let syms := table_iter (parse_symbol (eb_little f) (eb_class f)) st in
+       (exists sy name, In sy syms /\ sym_at sb a sy name) ->
+       exists sy name, In sy syms /\ sym_at sb a sy name /\ sym_lookup a (symbols s') = Some name).
+Proof.
+  intros Hd MP EP l Hok. unfold from_binary. rewrite MP.
+  destruct (minimal_parse_ok _ _ MP Hd) as [Ed _].
+  set (e := e_entry (eb_ehdr f)).
+  (* the four bookkeeping steps *)
+  unfold bind at 1. unfold regs_insert. unfold bind at 1. unfold call_stack_push.
+  rewrite bind_insert. unfold bind at 1. unfold trace_push. rewrite EP. fold l.
+  match goal with |- exists s', bind _ _ ?s0 = _ /\ _ => set (s0' := s0) end.
+  assert (HI0 : Inv (mem s0')) by (split; constructor).
+  assert (Hok0 : table_ok f l (mem s0')) by exact Hok.
+  destruct (load_segments_image c f l s0' HI0 ltac:(rewrite Ed; exact Hd) Hok0) as (s1 & E1 & Es1 & HI1 & _ & A & _).
+  unfold bind at 1. rewrite E1.
+  assert (R1 : regs s1 RIP = e) by (rewrite Es1; reflexivity).
+  destruct (symbol_table f) as [[[st sb]|]|] eqn:ST.
+  - destruct (load_symbols_frame sb (table_iter (parse_symbol (eb_little f) (eb_class f)) st) s1) as (F1 & F2 & F3).
+    destruct (load_symbols sb _ s1) as [r s2] eqn:LS. cbn [fst snd] in *. subst r.
+    exists s2. split; [reflexivity|]. split; [rewrite F3; exact R1|]. split; [rewrite F2; exact HI1|].
+    split; [intros ph Hp Hl; rewrite F2; apply A; assumption|].
+    intros st' sb' a Heq. cbv zeta. intros Hex. inversion Heq; subst st' sb'.
+    pose proof (load_symbols_resolve sb a _ s1 Hex) as H. rewrite LS in H. exact H.
+  - exists s1. split; [reflexivity|]. split; [exact R1|]. split; [exact HI1|]. split; [exact A|]. intros; discriminate.
+  - exists s1. split; [reflexivity|]. split; [exact R1|]. split; [exact HI1|]. split; [exact A|]. intros; discriminate.
 Qed.
